@@ -302,7 +302,22 @@ def check_transfer(idx: Index, rep: Report) -> None:
     (r.ok(f.fq + ":effects", f"{f.loc} not would_be_trivially_dead(op) -> every operand live") if ok1 else r.fail(f.fq + ":effects", Finding("C25.R5", f.fq, "effectful-op-rule", "every operand of an operation that is not removable-if-unused must be marked live", f.loc)))
     loops = [w for w in f.node.body if isinstance(w, ast.For) and unparse(w.iter) == "result_lattices"]
     if len(loops) != 1:
-        raise AnalysisError(f"{f.fq}: loop over result_lattices not found")
+        # no loop over the results: the meets must still take a lattice that is known to be live
+        from ..astutil import norm_facts, text_facts
+
+        meets = [c for c in calls_in(f.node) if unparse(c.func) == "self.meet" and len(c.args) == 2]
+        if not meets:
+            raise AnalysisError(f"{f.fq}: neither a loop over result_lattices nor a meet call found")
+        for c in meets:
+            src = unparse(c.args[1])
+            nf = norm_facts(text_facts(f.node, c))
+            if (f"{src}.is_live", True) in nf:
+                r.ok(f.fq + ":results", f"{f.loc} operands are met with `{src}` under `{src}.is_live`")
+            elif re.fullmatch(r"result_lattices\[-?\d+\]", src) and any(re.fullmatch(r"any\(\(?(\w+)\.is_live for \1 in result_lattices\)?\)", t_) and p_ for t_, p_ in nf):
+                r.fail(f.fq + ":results", Finding("C25.R5", f.fq, "meet-source-not-live", f"`{unparse(c)}` meets the operands with the fixed lattice `{src}` under 'some result is live': when that particular result is dead and another one is live the meet is a no-op and no operand becomes live", f"{f.module.relpath}:{c.lineno}"))
+            else:
+                raise AnalysisError(f"{f.fq}: source `{src}` of `{unparse(c)}` not understood")
+        return _check_exit_state(idx, r)
     w = loops[0]
     res = unparse(w.target)
     inner = [x for x in walk_local(w) if isinstance(x, ast.For) and unparse(x.iter) == "operand_lattices"]
@@ -315,6 +330,10 @@ def check_transfer(idx: Index, rep: Report) -> None:
         r.fail(f.fq + ":early-exit", Finding("C25.R5", f.fq, "early-exit-unguarded", f"the loop over results is left (line {bad[0].lineno}) without a live result having been found: for a multi-result op whose first result is dead and a later one live, the operands stay dead", f.loc))
     else:
         r.ok(f.fq + ":early-exit", f"{f.loc} the results loop exits early only under `{res}.is_live`")
+    _check_exit_state(idx, r)
+
+
+def _check_exit_state(idx: Index, r) -> None:
     g = idx.func(LA, "LivenessAnalysis.set_to_exit_state")
     l = g.node.args.args[1].arg
     from ..paths import outcomes as _oc5
